@@ -31,8 +31,9 @@ TRUSTED = [
 ASSUMPTIONS = [
     "floats are compared as normalised decimals of their repr (generators keep to short decimals)",
     "no input string names an existing file (enable_path is off for typed arguments anyway); the runner works in an empty scratch directory",
-    "the model is pure: in-place rewriting of lists/dicts by a failed Union member is not threaded (cases where it can matter are "
-    "detected in Coq and judged on the spec only)",
+    "the model is a pure function of (type, value): adapt_typehints copies list/dict values before adapting their items "
+    "(fix ce28ec8) and parse_object works on a copy of its argument (fix e3cc9bb); a recurrence of in-place residue shows as a "
+    "model disagreement (curated cases Union[List[int], List[str]] on ['1','a'] etc.)",
     "declared defaults of list-append arguments conform to their type (parse_args never checks an overridden default)",
     "dict objects carry no dotted keys and no scalar for a group key; parsers have no environment, config-file argument, "
     "subcommand or link (those are C04/C06/C15/C17)",
@@ -322,10 +323,10 @@ def curated():
         one(["set", U(WEIRD, STR)], S("[2, 1]")),
         one(["list", U(["tuple", [INT]], ["set", INT])], L([L([I(2), I(2)]), L([I(3)])])),
         one(["dict", False, U(["tuple", [INT]], ["set", INT])], D([(S("a"), L([I(5), I(5)]))])),
-        # in-place residue of a failed Union member (model not compared there: may_residue)
+        # a failed Union member must leave nothing behind for the next one (values are copied since fix ce28ec8)
         one(U(["list", INT], ["list", STR]), L([S("1"), S("a")])), one(U(["list", INT], ANY), L([S("1"), S("a")])),
         one(U(["dict", False, INT], ["dict", False, STR]), D([(S("a"), S("1")), (S("b"), S("x"))])),
-        # the exception object left in vals[-1]
+        # orig_val fallback followed by a failing member: the last ACCEPTING entry is taken (fix ec37b24), never an exception object
         one(U(STR, INT), S("[1]")), one(U(INT, STR), S("[1]")), one(U(STR, INT), S("null")), one(U(INT, STR), S("null")),
         one(["list", U(INT, STR)], S("[[1]]")), one(["list", U(STR, INT)], S("[[1]]")),
         # representation changes that must be stable
@@ -792,8 +793,8 @@ META = {
     "level_text": "Proved in Coq for every type of the modelled grammar (str, int, float, bool, None, Any, Literal, Enum, Union, "
                   "List, Dict[str|int,_], Tuple[..], Tuple[T,...], Set, arbitrarily nested), every input value and ARBITRARY "
                   "text readers: C10_readapt_fixed_point (adapt_typehints returns unchanged what it returned: induction on the "
-                  "type, incl. the isinstance early-outs, Literal ==, set() de-duplication, the Dict[int,_] key cast, the sorted "
-                  "Union trial loop with orig_val fallback and vals[-1]), C10_check_type_fixed_point (ActionTypeHint._check_type "
+                  "type, incl. the isinstance early-outs, Literal membership by value and type, set() de-duplication, the Dict[int,_] key cast, the sorted "
+                  "Union trial loop with orig_val fallback, last accepting entry taken), C10_check_type_fixed_point (ActionTypeHint._check_type "
                   "with text loading, orig_val retry, default early-out, valid-string fallback), "
                   "C10_parsed_key_validates_and_reparses (a parsed key passes validation and re-parses to itself) and "
                   "C10_parse_object_fixed_point (parse_object over a parser with distinct dotted keys and defaults: the result "
@@ -804,9 +805,7 @@ META = {
                   "inputs and evaluating model- and spec-agreement inside Coq.",
     "level_note": "Only exercised by the correspondence (spec judged in Coq, no model): paths, registered and restricted types, "
                   "dataclasses, subclass specs, the argv and string channels, list append, and the as_dict() form of the re-parse "
-                  "(the model re-parses the flat key/value list); cases in which a failed Union member may have rewritten a container in place "
-                  "(adapt_typehints adapts lists/dicts in place; recognised conservatively by may_residue) are judged on the spec only, "
-                  "the pure model is not compared there. Not covered here: the dump / re-parse / dump clause of the "
+                  "(the model re-parses the flat key/value list). Not covered here: the dump / re-parse / dump clause of the "
                   "property (C01 proves serialize/adapt inversion), environment, config files, subcommands, links. Trusted: Coq "
                   "kernel/VM; the hand-written models outside the generated cases; the observation harness; the real text "
                   "readers, whose answers are fed to the model per case. No axioms.",
